@@ -45,7 +45,8 @@ TREES = ["[0,[1,2]]", "[[0],[1],[2]]", "[[0,1],[2,[3]]]", "[[[0]]]",
          "[0,1,[2,[3,[4]]]]", "[[5,4],[3,2],[1,0]]"]
 THEORIES = {"Mie": ("Mie", (), {}), "MieLens": ("MieLens", (0.8,), {}),
             "Lens": ("Lens", (0.8, ("Mie", (False, False), {}), 48, 48), {})}
-POLS = [(1, 0), (0, 1), (1, 1), (3, 4), (-2, 0.5), (0, -7), (1e-3, 1)]
+POLS = [(1, 0), (0, 1), (1, 1), (3, 4), (-2, 0.5), (0, -7), (1e-3, 1),
+        (1, 1, 0), (3, -2, 0)]
 LIN_TH = {"Mie": ("Mie", (), {}),
           "Multisphere": ("Multisphere", (), {"eps": 1e-12, "qeps1": 1e-12,
                                               "qeps2": 1e-14}),
@@ -207,8 +208,9 @@ def _run_lin(case, ck):
         Fy = _field(det, scat, H.mk_theory(LIN_TH[th]), (0, 1)).values
         ck.trans += 2
         scale = max(np.abs(Fx).max(), np.abs(Fy).max())
-        for a, b in POLS:
-            F = _field(det, scat, H.mk_theory(LIN_TH[th]), (a, b)).values
+        for pv in POLS:
+            a, b = pv[0], pv[1]
+            F = _field(det, scat, H.mk_theory(LIN_TH[th]), pv).values
             ck.trans += 1
             ref = (a * Fx + b * Fy) / math.hypot(a, b)
             e = float(np.abs(F - ref).max() / scale)
